@@ -305,7 +305,9 @@ def run_parse(phys, strict, kind, want_obj=False):
             ob = {"r": "ValueError"}
         except Exception as e:          # noqa: BLE001 -- observation
             ob = {"r": "EXC:" + type(e).__name__}
-    ob["warn"] = len(wl) > 0
+    # only warnings of the library count: the warnings machinery is process-wide and other threads of the harness run
+    # TLC meanwhile (a ResourceWarning of theirs must not be taken for the parser's complaint)
+    ob["warn"] = any(issubclass(w.category, UserWarning) for w in wl)
     return (ob, wf) if want_obj else ob
 
 
@@ -1226,7 +1228,8 @@ NEG_CONTROLS = [
 
 def _neg_control(ctx, item):
     module, cfgname, old, new, inv = item
-    base = open(os.path.join(core.SPEC, cfgname)).read()
+    with open(os.path.join(core.SPEC, cfgname)) as f:
+        base = f.read()
     if old not in base:
         raise core.MachineryError("negative control: %r not in %s" % (old, cfgname))
     r = ctx.tlc(module, base.replace(old, new), workers=1, count=False)
@@ -1244,10 +1247,11 @@ def background_models(ctx, pool):
 
 def cfg_constants(name):
     out = {}
-    for line in open(os.path.join(core.SPEC, name)):
-        m = re.match(r"^\s+(\w+) = (.+)$", line)
-        if m:
-            out[m.group(1)] = m.group(2).strip()
+    with open(os.path.join(core.SPEC, name)) as f:
+        for line in f:
+            m = re.match(r"^\s+(\w+) = (.+)$", line)
+            if m:
+                out[m.group(1)] = m.group(2).strip()
     return out
 
 
@@ -1469,11 +1473,11 @@ def run(ctx):
         "trusted: TLC, the concretizer and the reader that maps results back to symbols (a wrong reading is rejected by TLC, never accepted), the uscan(1) table of substitutions",
     ]
     pool = ThreadPoolExecutor(max_workers=2)        # negative controls and the heap model, one TLC worker each
-    main = ThreadPoolExecutor(max_workers=1)        # the enumerations, one after the other
+    main = ThreadPoolExecutor(max_workers=2 if quick else 1)    # the enumerations (quick: two at a time, 3 TLC workers each)
     try:
         futs = background_models(ctx, pool)
         emis = [main.submit(ctx.tlc_must_hold, "WatchFileExpand", "WatchFileExpand.cfg", workers=1, keep_raw=True, want_tags=set())]
-        emis += [main.submit(ctx.tlc_must_hold, "WatchFile", c, workers=4 if quick else 6, keep_raw=True, want_tags=set()) for c in cfgs]
+        emis += [main.submit(ctx.tlc_must_hold, "WatchFile", c, workers=3 if quick else 6, keep_raw=True, want_tags=set()) for c in cfgs]
         # meanwhile: record executions of the real code (validated by TLC at the end)
         recorded = record_executions(ctx, quick, stats)
         for f in emis:
